@@ -681,6 +681,40 @@ static int do_repack(const char *in, const char *out, const char *log)
     return run_tool("hrepack", av, n, log);
 }
 
+/* number of chunks the shape `val` ("d1xd2...") would give an object of extents dims[0..rank) ; 0 when the ranks differ */
+static long chunks_for(const char *val, int rank, const int32 *dims)
+{
+    long ck[H4_MAX_VAR_DIMS], n = 1;
+    int  nd = 0, i;
+    const char *p = val;
+    while (*p && nd < H4_MAX_VAR_DIMS) {
+        char *end; long v = strtol(p, &end, 10);
+        if (end == p) return 0;
+        ck[nd++] = v; p = end;
+        if (*p == 'x') p++; else break;
+    }
+    if (*p || nd != rank) return 0;
+    for (i = 0; i < rank; i++) { if (ck[i] <= 0) return 0; n *= (dims[i] + ck[i] - 1) / ck[i]; if (n > 100000000L) break; }
+    return n;
+}
+
+/* precondition of the tie (bin/props.py assumptions): no object is asked to have more than MAXCHUNKS chunks. A file has 65535
+   reference numbers and every chunk takes one, so such a request makes SDendaccess / GRwriteimage fail at the format limit
+   (C20), whatever hrepack decides; copy_sds's own guard compares with INT_MAX and never triggers. */
+#define MAXCHUNKS 4096
+static int too_many_chunks(const char *optval)
+{
+    const char *v = strrchr(optval, ':');
+    int o;
+    if (!v) return 0;
+    v++;
+    for (o = 0; o < nobjs; o++) {
+        if (objs[o].sds >= 0) { const tg_sds_t *d = &cur_spec->sds[objs[o].sds]; if (chunks_for(v, d->rank, d->dims) > MAXCHUNKS) return 1; }
+        else if (objs[o].gr >= 0) { if (chunks_for(v, 2, cur_spec->gr[objs[o].gr].dims) > MAXCHUNKS) return 1; }
+    }
+    return 0;
+}
+
 static int skip_binary(void)
 {
     int i;
@@ -689,6 +723,18 @@ static int skip_binary(void)
         if (strstr(margs[i], "JPEG")) return 1;
         if (i > 0 && (strcmp(margs[i - 1], "-c") == 0 || strcmp(margs[i - 1], "-f") == 0))
             for (p = margs[i]; *p; p++) { if (*p >= '0' && *p <= '9') { if (++run >= 6) return 1; } else run = 0; }
+        if (i > 0 && strcmp(margs[i - 1], "-c") == 0 && too_many_chunks(margs[i])) return 1;
+        if (i > 0 && strcmp(margs[i - 1], "-f") == 0) {
+            /* every quoted value of the option file (a -t value never parses as a chunk shape) */
+            const char *q = margs[i];
+            while ((q = strchr(q, '"')) != NULL) {
+                const char *e = strchr(q + 1, '"'); char tmp[600];
+                if (!e) break;
+                snprintf(tmp, sizeof tmp, "%.*s", (int)(e - q - 1), q + 1);
+                if (too_many_chunks(tmp)) return 1;
+                q = e + 1;
+            }
+        }
     }
     return 0;
 }
